@@ -384,6 +384,32 @@ def defaults_family(rng):
         if rng.random() < 0.5:
             k['extra'] = True       # _yatiml_extra: Optional[...] = None
         classes.append(k)
+    # two classes that inherit Kid0's __init__ (define none themselves), each
+    # with its own _yatiml_defaults and its own default-removing sweetener
+    # (their common parent removes nothing itself: a base-class sweetener
+    # would act on the heirs' nodes with the base's defaults)
+    k0 = {'name': 'HBase', 'kind': 'plain', 'bases': ['B0'],
+          'params': [{'name': 'tag', 'type': 'str'},
+                     {'name': 'hb_id', 'type': 'int'},
+                     {'name': 'width', 'type': 'int', 'default': 2},
+                     {'name': 'note', 'type': ['opt', 'str'],
+                      'default': None}],
+          'recognize': ['attr_value', 'heir', 'HBase'],
+          'savorize': [['remove_attr', 'heir']],
+          'sweeten': [['set_attr', 'heir', 'HBase']]}
+    classes.append(k0)
+    for j, note in enumerate(['slow', 'fast']):
+        classes.append({'name': 'Heir%d' % j, 'kind': 'plain',
+                        'bases': ['HBase'], 'inherit_init': True,
+                        'params': [dict(q) for q in k0['params']],
+                        'defaults_override': {'note': note},
+                        'sweeten': [['remove_defaults']],
+                        'savorize': [['record']],
+                        'recognize': ['attr_value', 'heir', 'Heir%d' % j],
+                        })
+        classes[-1]['savorize'] = [['remove_attr', 'heir']]
+        classes[-1]['sweeten'] = [['remove_defaults'],
+                                  ['set_attr', 'heir', 'Heir%d' % j]]
     return {'classes': classes, 'doc_type': ['list', ['cls', 'B0']],
             'profile': 'defaults-family'}
 
@@ -400,12 +426,16 @@ def run_defaults_family(ctx, rng):
     objs = []
     for _ in range(rng.randint(2, 5)):
         c = rng.choice(kids)
-        i = c['name'][3:]
-        kw = {'tag': 't', 'kid%s_id' % i: rng.randint(0, 9)}
+        if c['name'] == 'HBase' and rng.random() < 0.7:
+            continue
+        if c['name'].startswith('Kid'):
+            kw = {'tag': 't', 'kid%s_id' % c['name'][3:]: rng.randint(0, 9)}
+        else:
+            kw = {'tag': 't', 'hb_id': rng.randint(0, 9)}
         if rng.random() < 0.8:
             kw['width'] = rng.choice([1, 2, 3, 5])
         if rng.random() < 0.5:
-            kw['note'] = rng.choice(['n/a', 'kid0', 'kid1', 'x', None])
+            kw['note'] = rng.choice(['n/a', 'kid0', 'kid1', 'x', None, 'slow', 'fast'])
         if c.get('extra') and rng.random() < 0.6:
             import collections
             kw['_yatiml_extra'] = collections.OrderedDict(
